@@ -87,7 +87,27 @@ func applyEdit(schemas ast.Schemas, e string) ast.Schemas {
 	return schemas
 }
 
+// c16Pinned: the minimal witnesses of the Lean counterexample theorems (lean/Cog/Builder/Witness.lean)
+func c16Pinned(name string) ast.Schemas {
+	s := ast.NewSchema("p", ast.SchemaMeta{})
+	switch name {
+	case "dangling":
+		s.AddObject(ast.NewObject("p", "D", ast.NewRef("p", "Missing")))
+	case "optional-const-ref":
+		k := ast.String()
+		k.Scalar.Value = "x"
+		s.AddObject(ast.NewObject("p", "K", k))
+		s.AddObject(ast.NewObject("p", "S", ast.NewStruct(ast.NewStructField("k", ast.NewRef("p", "K")))))
+	default:
+		return nil
+	}
+	return ast.Schemas{s}
+}
+
 func c16Case(c caseID) ast.Schemas {
+	if c.mode == "pinned" {
+		return c16Pinned(c.tier)
+	}
 	r := caseRng(c.seed, c.idx)
 	schemas := genC16Schemas(r, c16Opts{tier: c.tier, malformed: c.mode == "malformed"})
 	if c.mode != "malformed" {
